@@ -340,8 +340,6 @@ def parts(tier):
 
 def known_match(part, case, v):
     f = (v.detail or {}).get('fault') if v.bucket == 'invalid-accepted' else None
-    if f and f[0] == 'above-max' and (v.detail or {}).get('route') in ('parsed', 'parsed-interleaved') and f[2] >= 2 and 'maximum 1' in v.msg:
-        return 'C13-repeated-singular-child-collapsed-by-parser'
     if f and f[0] in ('attr-type', 'text-type'):
         for key, (tn, values) in G.LENIENT_KNOWN.items():
             if f[-1] in values and tn in v.msg:
